@@ -23,7 +23,7 @@ import c07
 
 PROP = "C08"
 LEVEL = "fault_enumeration"
-VARIANTS = ["asan"]
+VARIANTS = ["asanlite"]
 RULE = ("one bad call per case on a freshly loaded instance, drawn from the families input / database / file / alloc / args (see module text); the stored-byte "
         "faults are explicit edit lists at fractional positions of a corpus text; each case is followed by a reload and a probe compared with a fresh instance. "
         "Non-trivial = a fault fired or the bad call got past the first keyword (the call emitted > 20 messages or returned non-zero); "
@@ -271,7 +271,7 @@ def check_plan(ctx, plan):
     if fam == "alloc":
         mops, midx, _ = bad_call_ops(plan, None)
         mhead = [["create", "1", "sim"], call("cpp", "s1", "LoadDatabase", db1)] + c07.setter_ops(plan.get("setters", []))
-        m = ctx.execute("asan", [mhead + mops], timeout=120)
+        m = ctx.execute("asanlite", [mhead + mops], timeout=120)
         if crash_violation(rep, m, "C08 measuring pass"):
             return rep
         cnt = m.client(0)[len(mhead) + midx].ctr().get("alloc", 0) if len(m.client(0)) > len(mhead) + midx else 0
@@ -287,7 +287,7 @@ def check_plan(ctx, plan):
     after_fail = []       # nothing is called between the bad call and the reload: a call after a failed call is outside the contract
     aops = c07.after_ops(pp)
     ops = head + bops + readout + after_fail + aops
-    res = ctx.execute("asan", [ops], timeout=120)
+    res = ctx.execute("asanlite", [ops], timeout=120)
     what = "C08 %s case (base %s, %s)" % (fam, plan["base"], json.dumps(plan.get("fault") or plan.get("arg") or plan["edits"])[:300])
     if crash_violation(rep, res, what):
         return rep
@@ -324,7 +324,7 @@ def check_plan(ctx, plan):
             rep.viol("ret_vs_errors", "C08:error_text_with_zero_return", "%s: the call returned 0 but the error string holds %r" % (what, serr[:400]))
     # ---- reload + probe vs fresh instance (C07 oracle) ---------------------------------------------------------
     rops = c07.reference_ops(pp)
-    ref = ctx.execute("asan", [rops], timeout=120)
+    ref = ctx.execute("asanlite", [rops], timeout=120)
     if crash_violation(rep, ref, "C08 reference"):
         return rep
     RR = ref.client(0)
@@ -354,7 +354,7 @@ def check_plan(ctx, plan):
         bops2, bidx2, _ = bad_call_ops(plan, k, "s2")
         ops2 = [["create", "2", "sim"], call("cpp", "s2", "LoadDatabase", db1), call("cpp", "s2", "RunString", PRIOR), ["transcript", "cpp", "s2", "S"]] + \
                [[x if x != "s1" else "s2" for x in o] for o in c07.setter_ops(setters)] + bops2 + [["transcript", "cpp", "s2", "S"]]
-        r2 = ctx.execute("asan", [ops2], timeout=120)
+        r2 = ctx.execute("asanlite", [ops2], timeout=120)
         if crash_violation(rep, r2, what + " after a prior successful run"):
             return rep
         Q = r2.client(0)
